@@ -224,9 +224,17 @@ async def after_abor(ctl, state, res):
         out2 = None
         try:
             c1, _, _, _ = await W.run_line(wd, c, b"PWD")
-            ce, _, _, _ = await W.run_line(wd, c, b"EPSV")
-            if ce != [229]:
-                raise ConnectionError("EPSV after ABOR answered %r" % (ce,))
+            # every other position: the next transfer reuses the session's passive listener (a new data connection
+            # to the same port, no new EPSV) - legal, and what a client that keeps its PASV port does
+            conn_ = wd.connection_of(c)
+            # (only when the aborted worker had TAKEN the data connection: a connection the client opened and never
+            # used is still parked at the server, and the harness has closed its end of it)
+            reuse = bool(res.get("k", 0) % 2) and wd._get(conn_, "passive_server")[0] and res.get("pos") == "body"
+            res["follow_reuses_listener"] = bool(reuse)
+            if not reuse:
+                ce, _, _, _ = await W.run_line(wd, c, b"EPSV")
+                if ce != [229]:
+                    raise ConnectionError("EPSV after ABOR answered %r" % (ce,))
             await W.data_connect(wd, c)
             c2, _, out2, _ = await W.run_line(wd, c, b"RETR /d/g.txt")
             c3, _, _, _ = await W.run_line(wd, c, b"QUIT")
